@@ -114,6 +114,14 @@ CHECKS["C11"] = {
     "design_ref": "DESIGN.md 2.2, 3 (C11)",
 }
 
+CHECKS["C19"] = {
+    "engine": "H+K",
+    "technique": "deterministic simulation: seeded histories of plotting calls sharing argument objects, kernels under the baton scheduler with a schedule per call, failing calls as faults; snapshot, repeat-call and reference-call (effective options) oracles; ddmin-minimised replay",
+    "text": "Seeded search over histories of 2..6 calls to map / histogram2d / histogram1d / scatter / plot that share one mesh Datagroup, three Layers with fixed layer-level options, one resolution dict, origin, limits, bins and weights, with every option (mode, norm, vmin, vmax, operation, an extra keyword, bins, weights) set at neither / call / layer / both levels with distinct values. After every call (also when it raises) a deep structural snapshot of every argument must be unchanged; a repeated identical call must return the same data; every layer must equal the corresponding layer of a reference call made with fresh option-less layers and the effective options at call level, and its mode/norm/vmin/vmax/extra option must be the effective one. Sampling, not proof.",
+    "note": "Trusted: matplotlib (Agg) for the rendering steps; the reference call shares the implementation but not the option-merging path under test; kernels as in C03/C05.",
+    "design_ref": "DESIGN.md 2.4, 3 (C19)",
+}
+
 PENDING_REASON = "check not built yet in this snapshot of /verif (planned and applicable, see DESIGN.md section 3); not claimed until its check exists"
 ALL = ["C%02d" % i for i in range(1, 21)]
 
